@@ -78,7 +78,7 @@ func checkC07(cx *Ctx, r *Report) {
 		why := "no store of the DEFLATE identifier into " + ex.form + ".Encoding"
 		for _, st := range fx.info(fn).stores {
 			fa, ok := st.Addr.(*ssa.FieldAddr)
-			if !ok || fieldOwner(fa.X.Type()) != ex.form || fieldVar(fa.X.Type(), fa.Field).Name() != "Encoding" {
+			if !ok || fieldOwner(fa.X.Type()) != ex.form || fname(fieldVar(fa.X.Type(), fa.Field)) != "Encoding" {
 				continue
 			}
 			if cs, ok := constString(st.Val); !ok || "const:"+cs != cDeflate {
@@ -265,7 +265,7 @@ func checkC07(cx *Ctx, r *Report) {
 						return false
 					}
 					fa, ok := ld.X.(*ssa.FieldAddr)
-					return ok && fieldOwner(fa.X.Type()) == "xml_dsig.X509DataType" && fieldVar(fa.X.Type(), fa.Field).Name() == "X509Certificate"
+					return ok && fieldOwner(fa.X.Type()) == "xml_dsig.X509DataType" && fname(fieldVar(fa.X.Type(), fa.Field)) == "X509Certificate"
 				}
 				if isCertLoad(bo.X) && isCertLoad(bo.Y) {
 					nCmp++
